@@ -8,7 +8,8 @@
        OriginPoint): all crossing contributions cancel by the symmetry law alone.
     3. [loops_around_vertex_exactly_one]: of the loops that meet at a vertex o, listed CCW
        around o and each presented with o as its vertex 1 (as initOriginAndBound sees it),
-       exactly one contains o (C03's AngleContainsVertex property (3)). *)
+       exactly one contains o (C03's AngleContainsVertex property (3), over the GUARDED
+       cyclic-order law [law_occw_split_ne] and the guard refdir o <> o). *)
 From Coq Require Import ZArith List Bool Floats Lia Permutation.
 From Geo Require Import Base.GoPrim Gen.C04Cell Model.Crosser Model.Contain
   Proofs.C03_Extra Proofs.C04_Brute Proofs.C04_Dispatch Proofs.C04_Polygon Proofs.C04_Tracker
@@ -196,13 +197,17 @@ Section AroundVertex.
   Hypothesis sign_swap : law_sign_swap point sign.
   Hypothesis sign_range : law_sign_range point sign.
   Hypothesis sign_zero_iff : law_sign_zero_iff point peq sign.
-  Hypothesis occw_split : law_occw_split point peq sign.
+  (* the cyclic-order law WITH its guard (start ray different from the vertex): the unguarded
+     law is false of RobustSign (Proofs/Link_C02_C03_Cyclic.v, occw_split_unguarded_refuted) *)
+  Hypothesis occw_split_ne : law_occw_split_ne point peq sign.
 
   Local Notation acv := (angle_contains_vertex point sign refdir).
   Local Notation lfp := (loop_from_points point peq eov acv south origin zeroPt).
   Local Notation brute_contains := (brute_contains point eov origin zeroPt).
 
   Variable o : point.
+  (* Point.referenceDir never returns the point itself *)
+  Hypothesis refdir_ne : peq (refdir o) o = false.
   (* the remaining vertices of the loop that fills the wedge from ray x CCW to ray y *)
   Variable rest : point -> point -> list point.
 
@@ -266,7 +271,9 @@ Section AroundVertex.
     assert (Hz : peq (last l v) o = false).
     { apply (ccw_listed_in (u :: v :: l)); [exact H|]. right. apply last_in_cons. }
     rewrite (wedge_loop_is_wedge (last l v) u Hz Hu).
-    exact (acv_exactly_one_wedge point peq sign refdir peq_sym sign_swap sign_range sign_zero_iff
-             occw_split o u v l H).
+    apply (acv_exactly_one_wedge_at point peq sign refdir peq_sym sign_swap sign_range sign_zero_iff o);
+      [|exact H].
+    intros x y z Hx Hy Hzo' Hxy Hyz Hxz Hccw.
+    exact (occw_split_ne (refdir o) x y z o refdir_ne Hx Hy Hzo' Hxy Hyz Hxz Hccw).
   Qed.
 End AroundVertex.
